@@ -4,7 +4,7 @@ import numpy as np
 from harness import common as C
 from harness import eofgen as G
 
-ANCHORS = ["T5whiten"]
+ANCHORS = ["T5whiten", "T9text"]
 MODELS = ["WhitenCase"]
 RULE = ("xeofs.preprocessing.Whitener and PCA fitted directly on centred (sample, feature) matrices with n_samples > n_features and full column "
         "rank: real and complex x condition number of X in {1 .. 1e6} x alpha in {0, 1/4, 1/3, 1/2, 3/4, 9/10, 1} x data scale 1e-9 .. 1e6 x numpy / dask "
